@@ -13,7 +13,7 @@ def run(ck: Check):
     runlib.run_obligations(ck)
     ck.build_driver(runlib.DRIVER_FAMILIES)
     runlib.float_selftest(ck, 3000 if ck.tier == "quick" else 50000)
-    streams = runlib.run_streams(ck, ck.tier)
+    streams = runlib.run_streams(ck, ck.tier, corpus_dirs=("C04", "C06"))
     prod = streams.get("product")
     if prod:
         sites = {}
